@@ -27,6 +27,12 @@ func c05Scenarios() []SchedScenario {
 			Threads: [][]VOp{{b("A", e("e1", "v1"))}, {{K: "create", DS: "C"}, b("C", e("e1", "v2"))}}},
 		{Name: "S6-rename-vs-batch", Datasets: vDS, IDs: vIDs, Pre: []VOp{b("A", e("e1", "v1"))}, MapPoints: true,
 			Threads: [][]VOp{{{K: "rename", DS: "A", To: "A2"}}, {b("A", e("e1", "v2"))}}},
+		// error paths: a transaction that names a dataset which does not exist (any more) must fail as a whole
+		// and must leave nothing behind that blocks later writers
+		{Name: "S10-txn-missing-dataset-then-writers", Datasets: vDS, IDs: vIDs,
+			Threads: [][]VOp{{txn(map[string][]VEnt{"A": {e("e1", "v1")}, "Z": {e("e2", "v1")}}), b("A", e("e1", "v2"))}, {b("A", e("e2", "v2")), {K: "rename", DS: "A", To: "A2"}}}},
+		{Name: "S11-txn-vs-delete-then-writer", Datasets: vDS, IDs: vIDs, MapPoints: true,
+			Threads: [][]VOp{{txn(map[string][]VEnt{"A": {e("e1", "v1")}, "B": {e("e2", "v1")}}), b("A", e("e1", "v2"))}, {{K: "delete", DS: "B"}}}},
 		{Name: "S9-three-writers", Datasets: vDS, IDs: vIDs,
 			Threads: [][]VOp{{b("A", e("e1", "v1"))}, {b("B", e("e1", "v2"))}, {b("A", e("e1", "dv1"))}}},
 	}
